@@ -610,9 +610,13 @@ func checkRecoveryStartsAtCurrentBirthdayBlock(c *Ctx, rule string) {
 		return
 	}
 	// the cell (variable) a value is read from: the allocation, parameter or captured variable behind its loads
-	var cellOf func(v ssa.Value, depth int) ssa.Value
-	cellOf = func(v ssa.Value, depth int) ssa.Value {
+	// (a field of a small private struct — a closure's captured variables spelled as fields — is a cell of its own)
+	var cellOf func(v ssa.Value, depth int) interface{}
+	cellOf = func(v ssa.Value, depth int) interface{} {
 		v = stripConv(v)
+		if fc, ok := privateFieldCell(v); ok {
+			return fc
+		}
 		if depth > 4 {
 			return v
 		}
@@ -638,13 +642,14 @@ func checkRecoveryStartsAtCurrentBirthdayBlock(c *Ctx, rule string) {
 		return v
 	}
 	region := p.regionOf(syn)
-	storesIntoCell := func(cell ssa.Value) []ssa.Value {
+	storesIntoCell := func(cell interface{}) []ssa.Value {
 		var out []ssa.Value
 		for _, f := range region {
 			for _, b := range f.Blocks {
 				for _, ins := range b.Instrs {
 					if st, ok := ins.(*ssa.Store); ok && cellOf(st.Addr, 0) == cell {
-						if _, isFA := stripConv(st.Addr).(*ssa.FieldAddr); !isFA {
+						_, isFA := stripConv(st.Addr).(*ssa.FieldAddr)
+						if _, isFC := cell.(fieldCell); !isFA || isFC {
 							out = append(out, st.Val)
 						}
 					}
@@ -669,7 +674,7 @@ func checkRecoveryStartsAtCurrentBirthdayBlock(c *Ctx, rule string) {
 		c.Check(rule, "recovery-call", rec.Pos(), false, "the recovery's birthday stamp argument could not be identified (undecided)")
 		return
 	}
-	from := map[ssa.Value]bool{}
+	from := map[interface{}]bool{}
 	var grow func(v ssa.Value, depth int)
 	grow = func(v ssa.Value, depth int) {
 		cell := cellOf(v, 0)
@@ -753,25 +758,54 @@ func checkWatchListCoversEveryRequestComponent(c *Ctx, rule string) {
 			}
 		}
 	}
+	// an append to the list: the builtin, or a private helper that hands back its list argument extended on every success
+	var isAppend func(ins ssa.Instruction) bool
+	isAppend = func(ins ssa.Instruction) bool {
+		call, ok := ins.(*ssa.Call)
+		if !ok {
+			return false
+		}
+		if calleeShort(&call.Call) == "append" {
+			return true
+		}
+		g := call.Call.StaticCallee()
+		if g == nil || len(g.Blocks) == 0 || !p.inRegion(fn, g) {
+			return false
+		}
+		q := &PathQuery{Fn: g, Target: p.nonErrorReturn()}
+		hits := q.From(nil)
+		for _, h := range hits {
+			r, ok := h.Ins.(*ssa.Return)
+			if !ok {
+				return false
+			}
+			okR := false
+			for _, rv := range r.Results {
+				if ac, ok := stripConv(rv).(*ssa.Call); ok && calleeShort(&ac.Call) == "append" && len(ac.Call.Args) > 0 {
+					if _, isPrm := p.slicerFirstParam(ac.Call.Args[0]); isPrm {
+						okR = true
+					}
+				}
+			}
+			if !okR {
+				return false
+			}
+		}
+		return len(hits) > 0
+	}
 	ranged := map[string]bool{}
 	for _, f := range p.regionOf(fn) {
 		for _, l := range loopsOf(f) {
 			if l.Kind == "for" {
 				continue
 			}
-			appends := l.containsInstr(func(ins ssa.Instruction) bool {
-				call, ok := ins.(*ssa.Call)
-				return ok && calleeShort(&call.Call) == "append"
-			})
+			appends := l.containsInstr(isAppend)
 			if !appends {
 				continue
 			}
 			for _, fld := range fields {
 				if strings.HasSuffix(l.Over, "field:"+fld) || strings.HasSuffix(l.Over, "."+fld) || strings.Contains(l.Over, fld) {
-					if bad := l.MustPassPerIteration(p, func(ins ssa.Instruction) bool {
-						call, ok := ins.(*ssa.Call)
-						return ok && calleeShort(&call.Call) == "append"
-					}); bad == "" {
+					if bad := l.MustPassPerIteration(p, isAppend); bad == "" {
 						ranged[fld] = true
 					}
 				}
@@ -847,4 +881,22 @@ func checkNeutrinoRecoveryWaitsForBackend(c *Ctx, rule string) {
 			"syncWithChain can start the recovery on the neutrino backend without having waited for the backend to be synced: the look-ahead scan stops at the light client's current height, the rest of the chain is only rescanned for already known addresses, and addresses used beyond them are never found")
 	}
 	c.Floor(rule, "recovery starts in syncWithChain", n, 1)
+}
+
+// slicerFirstParam: v is (a conversion / load of the spill of) a parameter of its function.
+func (p *Program) slicerFirstParam(v ssa.Value) (*ssa.Parameter, bool) {
+	v = stripConv(v)
+	if prm, ok := v.(*ssa.Parameter); ok {
+		return prm, true
+	}
+	if u, ok := v.(*ssa.UnOp); ok && u.Op == token.MUL {
+		if al, ok := u.X.(*ssa.Alloc); ok && isParamSpill(al) {
+			for _, st := range storesTo(al) {
+				if prm, ok := st.Val.(*ssa.Parameter); ok {
+					return prm, true
+				}
+			}
+		}
+	}
+	return nil, false
 }
